@@ -197,6 +197,12 @@ impl<'a> Fmt<'a> {
                         stored[0] = 0x05;
                     }
                     let mut e = entry_bytes(&stored, attr, first, size, ct, mt, fat32);
+                    // on FAT16 bytes 20..22 are not part of the cluster number: another system may have left something there
+                    if !fat32 {
+                        if let Some(h) = sp.get("hi16").and_then(|x| x.as_u64()) {
+                            e[20..22].copy_from_slice(&(h as u16).to_le_bytes());
+                        }
+                    }
                     if t == "file" {
                         self.link_chain(&chain);
                         // fill data: every block of the chain is written (zero padded)
